@@ -1,5 +1,5 @@
 import PlumpyModel.Props.C13
-import PlumpyModel.PM.Proof11f
+import PlumpyModel.PM.Proof11g
 /-!
 # C06 — a wake-up is never lost to a concurrent pause or interruption
 
@@ -192,6 +192,31 @@ theorem C06_first_resume_wins (P : Prog) (nf : Nat) (evs₁ evs₂ : List Ev) (f
   | over hterm ht' => exact Or.inr ⟨ht', Or.inl hterm⟩
   | done extra ht' => exact Or.inl ⟨extra, ht'⟩
 
+/-- the process is WAITING for continuation `fn` and NOTHING has been delivered to that wait: the wake-up slot is empty and
+the future is pending or carries an interruption -/
+def WaitsEmpty (c : Cfg) (fn : Nat) : Prop :=
+  ∃ wf aw, c.st = .waiting fn wf none aw ∧ (c.wfs[wf]? = some .pending ∨ ∃ k, c.wfs[wf]? = some (.interrupted k))
+
+/-- **C06 — no activation without a delivered outcome (history level).**  If after `evs₁` the process is WAITING for `fn`
+with nothing delivered, then along ANY continuation `evs₂` that contains no delivery — no `resume`, no awaitable
+done-callback (the workchain's own way of completing the wait) — but any ticks, pauses, plays, interruptions that
+re-arm the wait, kills, fails, nothing at all is activated: the trace of user calls is unchanged, and the process is
+still WAITING for `fn` with nothing delivered, or it terminated.  A continuation is only ever started by an outcome. -/
+theorem C06_no_activation_while_waiting_empty (P : Prog) (nf : Nat) (evs₁ evs₂ : List Ev) (fn : Nat)
+    (hfuel : H6.histFuelOk P (init nf) (evs₁ ++ evs₂) = true)
+    (hw : WaitsEmpty (run P (init nf) evs₁) fn)
+    (hnd : ∀ e ∈ evs₂, (∀ u, e ≠ .resume u) ∧ (∀ f, e ≠ .tickCb (.adone f))) :
+    (run P (init nf) (evs₁ ++ evs₂)).trace = (run P (init nf) evs₁).trace ∧
+    (terminal (run P (init nf) (evs₁ ++ evs₂)).st.label = true ∨ WaitsEmpty (run P (init nf) (evs₁ ++ evs₂)) fn) := by
+  rw [H6.histFuelOk_append, Bool.and_eq_true] at hfuel
+  obtain ⟨wf, aw, hst, he⟩ := hw
+  have hC1 := H6.run_coh P _ evs₁ (H6.coh_init nf) hfuel.1
+  have hU := H6.run_unres P _ evs₂ hC1 hfuel.2 hnd (H6.Unres.waiting wf aw hst he rfl)
+  rw [H6.run_append]
+  cases hU with
+  | waiting wf' aw' hst' he' ht' => exact ⟨ht', Or.inr ⟨wf', aw', hst', he'⟩⟩
+  | over hterm ht' => exact ⟨ht', Or.inl hterm⟩
+
 -- non-vacuity and the races of section 9: pause then resume inside one loop iteration; the value arrives after play
 section
 private def waiter : Prog := fun fn _ _ _ => if fn = 0 then ⟨0, .ret (.wait 1)⟩ else ⟨0, .ret (.stop none true)⟩
@@ -224,7 +249,17 @@ example : H6.histFuelOk waiter (init 0) ([.tick, .pause] ++ .resume (some 5) :: 
   decide +kernel
 example : ((run waiter (init 0) ([.tick, .pause] ++ .resume (some 5) :: [.resume (some 6), .play, .resume (some 7), .tick, .tick])).trace.map
     fun a => (a.fn, a.args)) = [(1, [5]), (0, [])] := by decide +kernel
--- ... and each of the other alternatives occurs: still waiting and holding 5 (paused), terminated before the activation
+-- `C06_no_activation_while_waiting_empty`: waiting with nothing delivered after [tick]; pause, tick (re-arm), play, ticks
+-- activate nothing
+example : WaitsEmpty (run waiter (init 0) [.tick]) 1 := ⟨0, [], by decide +kernel, Or.inl (by decide +kernel)⟩
+example : H6.histFuelOk waiter (init 0) ([.tick] ++ [.pause, .tick, .play, .tick, .tick]) = true := by decide +kernel
+example : ∀ e ∈ [Ev.pause, .tick, .play, .tick, .tick], (∀ u, e ≠ .resume u) ∧ (∀ f, e ≠ .tickCb (.adone f)) := by
+  intro e he
+  simp at he
+  rcases he with rfl | rfl | rfl | rfl <;> exact ⟨fun _ h => (by cases h), fun _ h => (by cases h)⟩
+example : ((run waiter (init 0) ([.tick] ++ [.pause, .tick, .play, .tick, .tick])).trace.map fun a => a.fn) = [0] ∧
+    (run waiter (init 0) ([.tick] ++ [.pause, .tick, .play, .tick, .tick])).st = .waiting 1 1 none [] := by decide +kernel
+-- ... and each of the other alternatives of `C06_first_resume_wins` occurs: still waiting and holding 5 (paused), terminated before the activation
 example : (run waiter (init 0) ([.tick, .pause] ++ .resume (some 5) :: [.resume (some 6), .tick, .tick])).st =
     .waiting 1 1 none [] ∧
     (run waiter (init 0) ([.tick, .pause] ++ .resume (some 5) :: [.resume (some 6), .tick, .tick])).wfs[1]? = some (.result (some 5)) := by
